@@ -41,6 +41,7 @@ CONSTANTS MaxAbs,    \* bound on |component| of every stored or returned value (
           Classes,   \* operation classes enabled in the model checker's next-state relation
           LRegs,     \* registers the model checker uses as left operand / target
           RRegs,     \* registers the model checker uses as right operand
+          ScalarTs,  \* C++ types of scalar operands the model checker uses (subset of SCTypes)
           OneStep,   \* TRUE = the model checker only takes steps out of initial states
           EmitOn     \* S->C: TRUE = write every transition out of an initial state as JSON (see Emit)
 
@@ -80,12 +81,18 @@ GDivisible(x, y) == /\ GNorm(y) # 0
                     /\ GNumRe(x, y) % GNorm(y) = 0
                     /\ GNumIm(x, y) % GNorm(y) = 0
 GDiv(x, y)  == <<GNumRe(x, y) \div GNorm(y), GNumIm(x, y) \div GNorm(y)>>
-(* The ratio of the divisor's smaller to its larger component is a dyadic rational: then not   *)
-(* only the textbook and the scaled (Annex G) algorithm but also Smith's algorithm computes an  *)
-(* exactly representable quotient exactly, so demanding equality cannot raise a false alarm.    *)
+(* Equality is demanded of a quotient only where EVERY reasonable algorithm is exact: the        *)
+(* divisor's squared modulus is a power of two (the divisor is a power of two times 1, i, 1+i,  *)
+(* 1-i or their negatives).  Then the textbook formula, the scaled (Annex G) one, Smith's        *)
+(* algorithm and also a multiplication by the reciprocal of the squared modulus (which is exact  *)
+(* only for a power of two) all return the exactly representable quotient.  Other exact          *)
+(* quotients ((6+3i)/3, (3+4i)/(1+2i)) are checked in ComplexExact.tla to within a few ulps,      *)
+(* which is all the property asks for there.                                                      *)
+RECURSIVE IsPow2(_)
+IsPow2(n) == IF n = 1 THEN TRUE ELSE (n > 1 /\ n % 2 = 0 /\ IsPow2(n \div 2))
 DyadicRatio(y) == LET mx == MaxOf(Abs(y[1]), Abs(y[2]))  mn == MinOf(Abs(y[1]), Abs(y[2]))
                   IN mx # 0 /\ (mn * 1024) % mx = 0
-DivOK(x, y) == GDivisible(x, y) /\ DyadicRatio(y)
+DivOK(x, y) == GDivisible(x, y) /\ DyadicRatio(y) /\ IsPow2(GNorm(y))
 
 Apply(o, x, y) == CASE o = "add" -> GAdd(x, y)
                     [] o = "sub" -> GSub(x, y)
@@ -138,9 +145,14 @@ SetPart(x, part, via, n) ==
     /\ Do("SetPart", [x |-> x, part |-> part, via |-> via, n |-> n],
           [mem EXCEPT ![IF part = "re" THEN ReC[x] ELSE ReC[x] + 1] = n], None)
 
-(* x = n  (n of type T or int): real part n, imaginary part zero *)
+(* C++ types of a real operand: the element type itself, int, long, and the two floating types   *)
+(* (for T = float "double" is the wider, for T = double "float" the narrower one; "T" is passed  *)
+(* as the lvalue d, the others as objects of that type holding the same small integer).          *)
+SCTypes == {"T", "int", "long", "float", "double"}
+
+(* x = n  (n of scalar type st): real part n, imaginary part zero *)
 AssignScalar(x, n, st) ==
-    /\ x \in MRegs /\ st \in {"T", "int"} /\ Abs(n) <= MaxAbs
+    /\ x \in MRegs /\ st \in SCTypes /\ Abs(n) <= MaxAbs
     /\ Do("AssignScalar", [x |-> x, n |-> n, st |-> st], Store(x, <<n, 0>>), Self)
 
 (* x = y between xcomplex objects of any closure kind.  A T& closure cannot be assigned from an    *)
@@ -149,6 +161,14 @@ AssignScalar(x, n, st) ==
 Assignable(x, y) == ~(Kind[x] = "ref" /\ Kind[y] = "ref")
 Assign(x, y) == /\ x \in MRegs /\ y \in CRegs /\ Assignable(x, y)
                 /\ Do("Assign", [x |-> x, y |-> y], Store(x, V(y)), Self)
+
+(* x = std::move(t), t a value closure holding y's parts (the rvalue assignment operator)           *)
+AssignMove(x, y) == /\ x \in MRegs /\ y \in CRegs
+                    /\ Do("AssignMove", [x |-> x, y |-> y], Store(x, V(y)), Self)
+(* std::swap(x, y) of two value closures of the same type (also x = y: a no-op)                      *)
+Swap(x, y) == /\ x \in {"v1", "v2"} /\ y \in {"v1", "v2"}
+              /\ Do("Swap", [x |-> x, y |-> y], [mem EXCEPT ![ReC[x]] = mem[ReC[y]], ![ReC[x] + 1] = mem[ReC[y] + 1],
+                                                            ![ReC[y]] = mem[ReC[x]], ![ReC[y] + 1] = mem[ReC[x] + 1]], None)
 
 (* new (&x) xcomplex<T,T,B>(p, q) from the lvalues a reference closure refers to: a value closure *)
 (* copies, it does not alias                                                                        *)
@@ -167,10 +187,10 @@ Bin(o, x, y) == /\ o \in Ops /\ x \in CRegs /\ y \in CRegs
                 /\ Defined(o, V(x), V(y)) /\ InB(Apply(o, V(x), V(y)))
                 /\ Obs("Bin", [o |-> o, x |-> x, y |-> y], Apply(o, V(x), V(y)))
 
-(* mixed real/complex: side "r": x o d ; side "l": d o x ; the scalar has type T or int *)
+(* mixed real/complex: side "r": x o d ; side "l": d o x ; the scalar has type st *)
 ScalarArgs(x, side) == IF side = "r" THEN <<V(x), V("d")>> ELSE <<V("d"), V(x)>>
 BinS(o, x, side, st) ==
-    /\ o \in Ops /\ x \in CRegs /\ side \in {"l", "r"} /\ st \in {"T", "int"}
+    /\ o \in Ops /\ x \in CRegs /\ side \in {"l", "r"} /\ st \in SCTypes
     /\ LET p == ScalarArgs(x, side) IN
          /\ Defined(o, p[1], p[2]) /\ InB(Apply(o, p[1], p[2]))
          /\ Obs("BinS", [o |-> o, x |-> x, side |-> side, st |-> st], Apply(o, p[1], p[2]))
@@ -189,7 +209,7 @@ BinStd(o, x, form) ==
 Cmp(o, x, y) == /\ o \in Ops /\ x \in MRegs /\ y \in CRegs
                 /\ Defined(o, V(x), V(y)) /\ InB(Apply(o, V(x), V(y)))
                 /\ Do("Cmp", [o |-> o, x |-> x, y |-> y], Store(x, Apply(o, V(x), V(y))), Self)
-CmpS(o, x, st) == /\ o \in Ops /\ x \in MRegs /\ st \in {"T", "int"}
+CmpS(o, x, st) == /\ o \in Ops /\ x \in MRegs /\ st \in SCTypes
                   /\ Defined(o, V(x), V("d")) /\ InB(Apply(o, V(x), V("d")))
                   /\ Do("CmpS", [o |-> o, x |-> x, st |-> st], Store(x, Apply(o, V(x), V("d"))), Self)
 (* x o= p where the real operand p is an lvalue: the real or imaginary part of register y.  When y   *)
@@ -272,7 +292,7 @@ Fwd(fn, x, y) == /\ x \in CRegs
 ----------------------------------------------------------------------------
 (* Model checker's next-state relation.                                     *)
 Sides == {"l", "r"}
-STs   == {"T", "int"}
+STs   == ScalarTs
 NextOf(C) ==
     \/ /\ "bin" \in C /\ \E o \in Ops, x \in LRegs \cap CRegs, y \in RRegs \cap CRegs : Bin(o, x, y)
     \/ /\ "bins" \in C /\ \E o \in Ops, x \in LRegs \cap CRegs, sd \in Sides, st \in STs : BinS(o, x, sd, st)
@@ -292,7 +312,9 @@ NextOf(C) ==
     \/ /\ "assign" \in C /\ ((\E x \in LRegs \cap MRegs, y \in RRegs \cap CRegs : Assign(x, y))
                                \/ (\E x \in LRegs \cap MRegs, n \in Vals, st \in STs : AssignScalar(x, n, st))
                                \/ (\E x \in LRegs \cap VRegs, n \in Vals, m \in Vals : SetVal(x, n, m))
-                               \/ (\E x \in LRegs \cap {"v1", "v2"}, y \in RefRegs : CtorLv(x, y)))
+                               \/ (\E x \in LRegs \cap {"v1", "v2"}, y \in RefRegs : CtorLv(x, y))
+                               \/ (\E x \in LRegs \cap MRegs, y \in RRegs \cap CRegs : AssignMove(x, y))
+                               \/ (\E x \in LRegs \cap {"v1", "v2"}, y \in RRegs \cap {"v1", "v2"} : Swap(x, y)))
     \/ /\ "setpart" \in C /\ \E x \in (LRegs \cap MRegs) \cup {"s", "d"}, p \in {"re", "im"}, v \in {"member", "free"}, n \in Vals :
                                   SetPart(x, p, v, n)
     \/ /\ "std" \in C /\ ((\E x \in LRegs \cap VRegs : FromStd(x)) \/ (\E x \in LRegs \cap CRegs : ToStd(x)))
@@ -333,6 +355,7 @@ Laws == \A x \in GI : \A y \in GI :
     /\ (GNorm(y) # 0 => GDivisible(GMul(x, y), y) /\ GDiv(GMul(x, y), y) = x)
     /\ (GDivisible(x, y) => GMul(GDiv(x, y), y) = x)
     /\ \A z \in GI : GMul(x, GAdd(y, z)) = GAdd(GMul(x, y), GMul(x, z))
+    /\ (DivOK(x, y) => GMul(GDiv(x, y), y) = x /\ y # <<0, 0>>)
 
 (* a call changes only the cells of the register it targets: value closures never alias, reference *)
 (* closures write exactly their referents, observers change nothing                                  *)
@@ -340,7 +363,8 @@ ObserverOps == {"Bin", "BinS", "BinStd", "Un", "Norm", "Part", "Eq", "EqStd", "E
 Target(l) == IF l.op = "ToStd" THEN "s" ELSE IF l.op \in {"Ctor", "Reset"} THEN "d" ELSE l.a.x
 Frame == [][/\ (last'.op \in ObserverOps => mem' = mem)
             /\ (last'.op \notin ObserverOps \cup {"Load"} =>
-                  \A c \in 1..NCells : mem'[c] # mem[c] => c \in CellsOf(Target(last')))]_vars
+                  \A c \in 1..NCells : mem'[c] # mem[c] =>
+                      c \in CellsOf(Target(last')) \cup (IF last'.op = "Swap" THEN CellsOf(last'.a.y) ELSE {}))]_vars
 (* r1 and k1 are views of the same referents, at every moment *)
 Aliases == ValOf(mem, "r1") = ValOf(mem, "k1")
 =============================================================================
